@@ -1,14 +1,31 @@
-"""Native replay of solver counterexamples (nothing is reported unreplayed)."""
+"""Native replay of solver counterexamples (nothing is reported unreplayed).
+
+For a FAILED Kani harness:
+ 1. re-run it with --verbose in a scratch target dir to learn the exact cbmc
+    command Kani used;
+ 2. run cbmc once more for the failed property only, with
+    `--trace --trace-show-function-calls`, and read the value of every
+    symbolic input from the calls of `k::Sym::sym` (leaf integer types), in
+    call order; inputs the slicer removed are unconstrained (0 is used);
+ 3. build the harness crate NATIVELY (bin `replay`, dev and release profile;
+    the real /repo code with hooks on) and run the same harness function on
+    the recorded witness.  A panic = the counterexample reproduces.
+"""
+import glob
 import json
 import os
 import re
-import shutil
+import shlex
 import subprocess
+import time
 from dataclasses import dataclass
 
 import runner
 
 REPLAYS = os.path.join(runner.VERIF, "replays")
+REPLAY_TARGET = os.path.join(runner.BUILD, "replay-target")
+
+LEAF = re.compile(r"Function call: (_R\w*1k(?:h|t|m|y|j)NtB\w+_3Sym3sym)\(\)")
 
 
 @dataclass
@@ -16,23 +33,192 @@ class Replay:
     reproduced: bool
     summary: str
     path: str
+    detail: dict = None
+
+
+def cbmc_command(h, slot="r"):
+    """ask Kani (verbose) for the cbmc command line of this harness"""
+    tdir = os.path.join(runner.BUILD, f"kt{slot}")
+    cmd = ["cargo", "kani", "--target-dir", tdir, "--exact", "--harness", h.name, "--verbose"] + list(h.flags)
+    if h.stubs:
+        cmd += ["-Z", "stubbing"]
+    p = subprocess.Popen(cmd, cwd=runner.HARNESS_DIR, env=runner.ENV, stdout=subprocess.PIPE, stderr=subprocess.STDOUT, text=True,
+                         preexec_fn=os.setsid)
+    found = None
+    try:
+        for line in p.stdout:
+            m = re.search(r"Running: `(cbmc [^`]*)`", line)
+            if m:
+                found = m.group(1)
+                break
+    finally:
+        try:
+            os.killpg(p.pid, 9)
+        except ProcessLookupError:
+            pass
+        p.wait()
+    return found
+
+
+def parse_witness(trace):
+    """values of the leaf k::Sym::sym calls in call order"""
+    vals = []
+    lines = trace.splitlines()
+    i = 0
+    n = len(lines)
+    while i < n:
+        m = LEAF.search(lines[i])
+        if not m:
+            i += 1
+            continue
+        fn = m.group(1)
+        val = None
+        j = i + 1
+        while j < n and not (("Function return from " + fn) in lines[j]):
+            mm = re.match(r"\s+v=.*\(([01 ]+)\)\s*$", lines[j])
+            if mm and val is None:
+                val = int(mm.group(1).replace(" ", ""), 2)
+            j += 1
+        vals.append(val)
+        i = j + 1
+    return vals
+
+
+def extract_witness(h, failed_check, log=None):
+    cmdline = cbmc_command(h)
+    if not cmdline:
+        return None, "could not obtain the cbmc command from kani --verbose"
+    args = shlex.split(cmdline)
+    args = [a for a in args if a not in ("--json-ui",)]
+    # drop "--verbosity 9"
+    out = []
+    skip = False
+    for a in args:
+        if skip:
+            skip = False
+            continue
+        if a == "--verbosity":
+            skip = True
+            continue
+        out.append(a)
+    out += ["--property", failed_check, "--trace", "--trace-show-function-calls"]
+    try:
+        r = subprocess.run(out, stdout=subprocess.PIPE, stderr=subprocess.STDOUT, text=True, timeout=max(600, h.timeout), cwd="/tmp")
+    except subprocess.TimeoutExpired:
+        return None, "cbmc trace generation timed out"
+    if log:
+        with open(log, "w") as f:
+            f.write(" ".join(out) + "\n" + r.stdout)
+    if "VERIFICATION FAILED" not in r.stdout:
+        return None, "cbmc did not reproduce the failure for the single property"
+    return parse_witness(r.stdout), ""
+
+
+def build_native():
+    res = {}
+    for prof, flag in (("dev", []), ("release", ["--release"])):
+        r = subprocess.run(["cargo", "build", "--offline", "--bin", "replay", "--target-dir", REPLAY_TARGET] + flag,
+                           cwd=runner.HARNESS_DIR, env=runner.ENV, stdout=subprocess.PIPE, stderr=subprocess.STDOUT, text=True)
+        res[prof] = (r.returncode == 0, r.stdout[-2000:])
+    return res
+
+
+def run_native(harness_name, witness):
+    """-> {profile: {exit, reproduced, output}}"""
+    built = build_native()
+    out = {}
+    for prof, sub in (("dev", "debug"), ("release", "release")):
+        ok, msg = built[prof]
+        if not ok:
+            out[prof] = {"exit": None, "reproduced": False, "output": "native build failed: " + msg[-500:]}
+            continue
+        exe = os.path.join(REPLAY_TARGET, sub, "replay")
+        try:
+            r = subprocess.run([exe, harness_name] + [str(v or 0) for v in witness], stdout=subprocess.PIPE, stderr=subprocess.STDOUT,
+                               text=True, timeout=600)
+            code, txt = r.returncode, r.stdout
+        except subprocess.TimeoutExpired:
+            code, txt = None, "native replay timed out"
+        out[prof] = {"exit": code, "reproduced": code == 101 or (code is not None and code < 0), "output": txt[-1500:]}
+    return out
 
 
 def replay_counterexample(result, pid, ctx):
-    return Replay(False, "replay not implemented yet", "")
+    h = result.harness
+    os.makedirs(REPLAYS, exist_ok=True)
+    real = [f for f in result.failed_checks if f["status"] == "FAILURE" and f["check"]]
+    path = os.path.join(REPLAYS, f"{pid}-{h.name.replace('::', '__')}.json")
+    if not real:
+        return Replay(False, "no failed check id in the Kani output", "")
+    fc = real[0]
+    log = os.path.join(runner.BUILD, "logs", pid, h.name.replace("::", "__") + ".trace.log")
+    os.makedirs(os.path.dirname(log), exist_ok=True)
+    witness, err = extract_witness(h, fc["check"], log)
+    if witness is None:
+        return Replay(False, err, "")
+    native = run_native(h.name, witness)
+    reproduced = any(v["reproduced"] for v in native.values())
+    panic = ""
+    for v in native.values():
+        m = re.search(r"panicked at ([^\n]*)\n([^\n]*)", v["output"])
+        if m:
+            panic = (m.group(1) + ": " + m.group(2)).strip()
+            break
+    profiles = [p for p, v in native.items() if v["reproduced"]]
+    doc = {
+        "property": pid,
+        "harness": h.name,
+        "asserts": h.desc,
+        "failed_check": fc,
+        "all_failed_checks": real[:10],
+        "witness": [v if v is not None else None for v in witness],
+        "witness_note": "values of the harness's symbolic inputs in call order (null = unconstrained in the counterexample, replayed as 0)",
+        "native": native,
+        "reproduced_in_profiles": profiles,
+        "replay_cmd": f"./check.py --replay {path}",
+    }
+    with open(path, "w") as f:
+        json.dump(doc, f, indent=1)
+    summ = f"{fc['description']} at {fc['location']}; native replay: " + (f"panics in {'+'.join(profiles)} profile ({panic})" if reproduced else "no panic")
+    return Replay(reproduced, summ, path, doc)
 
 
 def replay_zquery(z, pid, ctx):
-    return Replay(False, "replay not implemented yet", "")
+    os.makedirs(REPLAYS, exist_ok=True)
+    path = os.path.join(REPLAYS, f"{pid}-{z['name']}.json")
+    ok, summary = z["confirm"](z) if z.get("confirm") else (False, "no native confirmation available")
+    doc = {k: v for k, v in z.items() if k != "confirm"}
+    doc["property"] = pid
+    doc["confirmed_natively"] = ok
+    doc["summary"] = summary
+    with open(path, "w") as f:
+        json.dump(doc, f, indent=1, default=str)
+    return Replay(ok, summary, path)
 
 
 def match_known(known, pid, h, r, rep):
+    """a known finding is identified by property + failing call site (source
+    location of the failed check) + harness family key"""
+    loc = rep.detail["failed_check"]["location"] if rep.detail else ""
+    desc = rep.detail["failed_check"]["description"] if rep.detail else ""
     for k in known.get("findings", []):
-        if k.get("property") == pid and k.get("key") and k["key"] == h.finding_key:
+        if k.get("property") != pid:
+            continue
+        if k.get("site") and k["site"] in loc and k.get("description", "") in desc:
             return k
     return None
 
 
 def replay_file(path):
-    print("replay not implemented yet")
+    """re-run a stored replay natively; True when it still reproduces"""
+    doc = json.load(open(path))
+    if "witness" in doc:
+        import prepare
+        prepare.prepare(doc["property"], "quick", 0)
+        native = run_native(doc["harness"], doc["witness"])
+        for prof, v in native.items():
+            print(f"[{prof}] exit={v['exit']} reproduced={v['reproduced']}")
+            print(v["output"][-600:])
+        return any(v["reproduced"] for v in native.values())
+    print(json.dumps(doc, indent=1)[:3000])
     return False
